@@ -53,8 +53,16 @@ CLAIMED = {
  "C20": C("property-based testing: generated sequences x segmentations x per-segment ingestion path vs add loop, bit-pattern snapshots; concatenate! structs vs stand-alone estimators",
    "Exploration: 11 types with FromIterator/Extend incl. pair estimators with (f64,f64) and &(f64,f64) items, Estimate::estimate vs headline accessor, four concatenate!-generated structs x four constructors."),
 }
+FUZZ = {"C05": "quantile", "C07": "quantile", "C15": "quantile", "C06": "histogram", "C12": "histogram", "C13": "histogram",
+        "C11": "history", "C14": "history", "C18": "history", "C20": "history"}
 for k in CLAIMED:
     t = CLAIMED[k]
+    tech = t[0]
+    if k in FUZZ:
+        tech += "; thorough tier adds a coverage-guided libFuzzer campaign (target `%s`, same oracle restricted to this property) and a plain-release-build cross-check" % FUZZ[k]
+    else:
+        tech += "; thorough tier adds a plain-release-build cross-check"
+    t = (tech, t[1], t[2], t[3])
     CLAIMED[k] = (t[0], t[1], t[2], t[3] or "DESIGN.md section 5 (%s), section 4" % k)
 PENDING_REASON = "check not built yet at this commit (work in progress; see DESIGN.md section 5 for the planned generator and oracle)"
 
@@ -90,11 +98,13 @@ manifest = {
     },
     "engines": [
         {"name": "avg-verif", "path": "/verif/harness", "serves_properties": sorted(CLAIMED.keys()),
-         "kind_free_text": "Rust binary `check`: proptest TestRunner driven from a binary (fixed seeds derived from VERIF_SEED, shrinking, replay files), bounded-exhaustive enumerators, stateful history interpreters, hill-climbing search, exact big-integer oracle"},
+         "kind_free_text": "Rust lib + binary `check`: proptest TestRunner driven from a binary (fixed seeds derived from VERIF_SEED, shrinking, replay files), bounded-exhaustive enumerators, stateful history interpreters, hill-climbing search, exact big-integer oracle (cross-checked against Python fractions at setup)"},
+        {"name": "avg-verif-fuzz", "path": "/verif/harness/fuzz", "serves_properties": sorted(FUZZ.keys()),
+         "kind_free_text": "cargo-fuzz / libFuzzer targets quantile, histogram, history (nightly, ASan): bytes decoded with arbitrary::Unstructured into the harness's case types, judged by the same oracle functions; thorough tier only; crash artifacts are re-judged and converted into replay files by `check fuzz-replay`"},
     ],
     "checks": checks,
     "not_applicable": na,
-    "notes": "All checks: exit 0 = held on everything explored, exit 1 + VIOLATION line = violation, exit 2 = infrastructure problem (never a verdict). Genuine defects found and repaired by fix: commits are listed in KNOWN_FINDINGS.txt as fixed: lines.",
+    "notes": "All checks: exit 0 = held on everything explored, exit 1 + VIOLATION line = violation, exit 2 = infrastructure problem (never a verdict). Genuine defects found: seven repaired by fix: commits (fixed: lines of KNOWN_FINDINGS.txt), three recorded as known findings K1 (C17), K2 (C15), K3 (C20), each under its own failure signature with a fixed reproducer, so the check prints KNOWN-FINDING and still reports any other violation. Sensitivity: mutants/*.patch (hand-written) and seeded/*/patch.diff (sub-agent changes) are all caught by the quick tier of their property (tools/mutation_selftest.sh).",
 }
 if not na:
     manifest["not_applicable"] = []
